@@ -4,6 +4,7 @@ import (
 	"fmt"
 	"reflect"
 	"runtime"
+	"sort"
 	"sync"
 )
 
@@ -12,6 +13,35 @@ import (
 // like a sequential call.
 func (c *stepCtx) stepPar(k int, st map[string]interface{}) []string {
 	threads, _ := st["threads"].([]interface{})
+	if g := num(st, "collide", 0); g > 0 {
+		// readers in steady state on registered types while a writer makes the first use of types that
+		// fall into the SAME slots of the descriptor table (the slot of a type is the low 16 bits of
+		// the address of its runtime type - a fact about the table, not about what calls return)
+		pairs := colPairs(g)
+		if len(pairs) == 0 {
+			return []string{`"ev":"Skipped","why":"no colliding unused types left"`}
+		}
+		f := func(op, ty string, byval bool) interface{} {
+			m := map[string]interface{}{"op": op, "ty": ty, "v": float64(0), "byval": byval}
+			if op == "encode" {
+				m["buf"] = map[string]interface{}{"mode": "rel", "n": float64(0), "extra": float64(0)}
+			}
+			return m
+		}
+		var rd, wr []interface{}
+		for _, p := range pairs {
+			sm := f("size", p[0], false).(map[string]interface{})
+			for _, line := range c.runStep(k, sm) {
+				c.emitLine(line)
+			}
+			rd = append(rd, f("encode", p[0], false), f("size", p[0], true)) // looks up *T and T
+			wr = append(wr, f("encode", p[1], false), f("size", p[1], true))
+		}
+		threads = []interface{}{wr}
+		for i := 0; i < num(st, "readers", 3); i++ {
+			threads = append(threads, rd)
+		}
+	}
 	if p := num(st, "gomaxprocs", 0); p > 0 {
 		defer runtime.GOMAXPROCS(runtime.GOMAXPROCS(p))
 	}
@@ -45,4 +75,52 @@ func (c *stepCtx) stepPar(k int, st map[string]interface{}) []string {
 	close(start)
 	wg.Wait()
 	return []string{fmt.Sprintf(`"ev":"Par","threads":%d,"obs":{"out":"ok"}`, len(threads))}
+}
+
+// colPairs picks up to g pairs (registered-first, first-used-concurrently) of so far unused generated
+// types named Col<n> whose runtime types share a slot of the descriptor table.
+var colUsed = map[string]bool{}
+
+func colPairs(g int) [][2]string {
+	by := map[uintptr][]string{}
+	var names []string
+	for name := range genTypes {
+		if len(name) > 3 && name[:3] == "Col" && !colUsed[name] {
+			names = append(names, name)
+		}
+	}
+	sort.Strings(names)
+	var out [][2]string
+	// a type occupies the slot of T and (used through a pointer) the slot of *T
+	slots := func(name string) [2]uintptr {
+		return [2]uintptr{abiOf(genTypes[name]) & 0xffff, abiOf(reflect.PtrTo(genTypes[name])) & 0xffff}
+	}
+	for _, name := range names {
+		for _, b := range slots(name) {
+			by[b] = append(by[b], name)
+		}
+	}
+	for _, name := range names {
+		if colUsed[name] {
+			continue
+		}
+		for _, b := range slots(name) {
+			other := ""
+			for _, o := range by[b] {
+				if o != name && !colUsed[o] {
+					other = o
+					break
+				}
+			}
+			if other != "" {
+				out = append(out, [2]string{name, other})
+				colUsed[name], colUsed[other] = true, true
+				break
+			}
+		}
+		if len(out) == g {
+			break
+		}
+	}
+	return out
 }
